@@ -148,3 +148,113 @@ Theorem C16_reopened_shows_the_same_tree : forall c e r, 0 < c_rs c -> c_readonl
   fst (fs_initialize c s0 rootp) = s0 /\ snd (fs_initialize c s0 rootp) = OOk /\ view c s0 = view c s.
 Proof. exact T05_reopened_shows_the_same_tree. Qed.
 Print Assumptions C16_reopened_shows_the_same_tree.
+
+(* ---------- T19 (ADDED): the instance that CONTINUES from a rebuilt index (Initialize over an absent index).  It caches the
+   root "" and stores names without the leading slash, so the history theorems (absolute spelling) do not apply to it; instead
+   it is in SIMULATION with the instance that wrote the tape (Proofs/T19Rel.v [R]: same tape items and index rows in the same
+   order, tombstones included, equal except the spelling of names -- r_name exactly [norm_name]; h_name and the value of
+   STFS.ReplacesName in either spelling).  Plain configuration; the root is never removed or renamed onto ([call_ok]: with
+   the root removed the two instances really diverge, Proofs/T19Counter.v). *)
+From STFS Require Import C01Sim C01Ops T19Rel T19Index T19Append T19Main.
+
+(* the initial pair *)
+Theorem C16_rebuilt_instance_is_related : forall c e r, plain c -> 0 < c_rs c -> c_readonly c = false ->
+  forallb hb_ok ((CInitialize [slash], e) :: r) = true ->
+  forallb (fun ke => fs_call (fst ke)) r = true ->
+  forallb (fun ke => call_ok (fst ke)) r = true ->
+  forall rootp q1 q2 k,
+  let s := final c init_sys ((CInitialize [slash], e) :: r) in
+  let s0 := {| tp := tp s; db := p_empty; hbq := q1; encq := q2; clk := k |} in
+  snd (fs_initialize c s0 rootp) = OOk /\ Sim c s (fst (fs_initialize c s0 rootp)).
+Proof. exact T19_rel_init. Qed.
+
+(* one call *)
+Theorem C16_rebuilt_instance_step : forall c, plain c -> 0 < c_rs c -> c_readonly c = false ->
+  forall sa sr k e, Sim c sa sr -> fs_call k = true -> call_ok k = true -> hb_ok (k, e) = true ->
+  snd (step c (with_env sr e) k) = snd (step c (with_env sa e) k) /\
+  Sim c (fst (step c (with_env sa e) k)) (fst (step c (with_env sr e) k)) /\
+  Re (fst (step c (with_env sa e) k)) (fst (step c (with_env sr e) k)).
+Proof. exact T19_step_sim. Qed.
+
+(* related instances show the same tree, contents included (any configuration) *)
+Theorem C16_related_instances_show_the_same_tree : forall c sa sr, C01Inv.LI true (db sa) -> R sa sr -> view c sr = view c sa.
+Proof. exact T19_view_sim. Qed.
+
+(* every later filesystem-level history: outcomes, views and tape lengths of the rebuilt instance are those of the writer *)
+Theorem C16_rebuilt_instance_simulates_writer : forall c e r r2, plain c -> 0 < c_rs c -> c_readonly c = false ->
+  forallb hb_ok ((CInitialize [slash], e) :: r) = true ->
+  forallb (fun ke => fs_call (fst ke)) r = true -> forallb (fun ke => call_ok (fst ke)) r = true ->
+  forallb (fun ke => fs_call (fst ke)) r2 = true -> forallb (fun ke => call_ok (fst ke)) r2 = true -> forallb hb_ok r2 = true ->
+  forall rootp q1 q2 k,
+  let s := final c init_sys ((CInitialize [slash], e) :: r) in
+  let sr := fst (fs_initialize c {| tp := tp s; db := p_empty; hbq := q1; encq := q2; clk := k |} rootp) in
+  map ob_out (run c sr r2) = map ob_out (run c s r2) /\
+  map ob_view (run c sr r2) = map ob_view (run c s r2) /\
+  map ob_blocks (run c sr r2) = map ob_blocks (run c s r2) /\
+  Forall2 rows_rel (map ob_rows (run c s r2)) (map ob_rows (run c sr r2)) /\
+  R (final c s r2) (final c sr r2).
+Proof. exact T19_rebuilt_instance_simulates_writer. Qed.
+
+(* "entries written through it afterwards are retrievable and survive a rebuild" *)
+Theorem C16_written_after_opening_survive_rebuild : forall c e r r2, plain c -> 0 < c_rs c -> c_readonly c = false ->
+  forallb hb_ok ((CInitialize [slash], e) :: r) = true ->
+  forallb (fun ke => fs_call (fst ke)) r = true -> forallb (fun ke => call_ok (fst ke)) r = true ->
+  forallb (fun ke => fs_call (fst ke)) r2 = true -> forallb (fun ke => call_ok (fst ke)) r2 = true -> forallb hb_ok r2 = true ->
+  forall rootp q1 q2 k rootp' q1' q2' k',
+  let s := final c init_sys ((CInitialize [slash], e) :: r) in
+  let sr := fst (fs_initialize c {| tp := tp s; db := p_empty; hbq := q1; encq := q2; clk := k |} rootp) in
+  let sr' := final c sr r2 in
+  let s2 := {| tp := tp sr'; db := p_empty; hbq := q1'; encq := q2'; clk := k' |} in
+  view c sr' = view c (final c s r2) /\
+  snd (fs_initialize c s2 rootp') = OOk /\ tp (fst (fs_initialize c s2 rootp')) = tp sr' /\
+  view c (fst (fs_initialize c s2 rootp')) = view c sr' /\
+  exists p, rebuild c (tp sr') = (p, Ok tt) /\ rows p = rows (db sr').
+Proof. exact T19_written_after_opening_survive_rebuild. Qed.
+
+(* ANY configuration (Proofs/T19Cfg.v): [SimC c sa sr] = [Sim] of the two states with the codec suffixes removed from the names of
+   the records that carry content ([TcfgSim.Pl]); for a plain configuration it is [Sim] ([SimC_plain]) *)
+From STFS Require Import TcfgSim T19Cfg.
+
+Theorem C16_rebuilt_instance_step_any_config : forall c, 0 < c_rs c -> c_readonly c = false ->
+  forall sa sr k e, SimC c sa sr -> fs_call k = true -> call_ok k = true -> hb_ok (k, e) = true ->
+  snd (step c (with_env sr e) k) = snd (step c (with_env sa e) k) /\
+  SimC c (fst (step c (with_env sa e) k)) (fst (step c (with_env sr e) k)).
+Proof. exact T19_step_sim_any_config. Qed.
+
+Theorem C16_rebuilt_instance_simulates_writer_any_config : forall c, 0 < c_rs c -> c_readonly c = false -> forall e r r2,
+  forallb hb_ok ((CInitialize [slash], e) :: r) = true ->
+  forallb (fun ke => fs_call (fst ke)) r = true -> forallb (fun ke => call_ok (fst ke)) r = true ->
+  forallb (fun ke => fs_call (fst ke)) r2 = true -> forallb (fun ke => call_ok (fst ke)) r2 = true -> forallb hb_ok r2 = true ->
+  forall rootp q1 q2 k,
+  let s := final c init_sys ((CInitialize [slash], e) :: r) in
+  let sr := fst (fs_initialize c {| tp := tp s; db := p_empty; hbq := q1; encq := q2; clk := k |} rootp) in
+  map ob_out (run c sr r2) = map ob_out (run c s r2) /\
+  map ob_view (run c sr r2) = map ob_view (run c s r2) /\
+  map ob_blocks (run c sr r2) = map ob_blocks (run c s r2) /\
+  Forall2 rows_rel (map ob_rows (run c s r2)) (map ob_rows (run c sr r2)) /\
+  SimC c (final c s r2) (final c sr r2).
+Proof. exact T19_rebuilt_instance_simulates_writer_any_config. Qed.
+
+Theorem C16_written_after_opening_survive_rebuild_any_config : forall c, 0 < c_rs c -> c_readonly c = false -> forall e r r2,
+  forallb hb_ok ((CInitialize [slash], e) :: r) = true ->
+  forallb (fun ke => fs_call (fst ke)) r = true -> forallb (fun ke => call_ok (fst ke)) r = true ->
+  forallb (fun ke => fs_call (fst ke)) r2 = true -> forallb (fun ke => call_ok (fst ke)) r2 = true -> forallb hb_ok r2 = true ->
+  forall rootp q1 q2 k rootp' q1' q2' k',
+  let s := final c init_sys ((CInitialize [slash], e) :: r) in
+  let sr := fst (fs_initialize c {| tp := tp s; db := p_empty; hbq := q1; encq := q2; clk := k |} rootp) in
+  let sr' := final c sr r2 in
+  let s2 := {| tp := tp sr'; db := p_empty; hbq := q1'; encq := q2'; clk := k' |} in
+  view c sr' = view c (final c s r2) /\
+  snd (fs_initialize c s2 rootp') = OOk /\ tp (fst (fs_initialize c s2 rootp')) = tp sr' /\
+  view c (fst (fs_initialize c s2 rootp')) = view c sr' /\
+  exists p, rebuild c (tp sr') = (p, Ok tt) /\ rows p = rows (db sr').
+Proof. exact T19_written_after_opening_survive_rebuild_any_config. Qed.
+
+Print Assumptions C16_rebuilt_instance_is_related.
+Print Assumptions C16_rebuilt_instance_step_any_config.
+Print Assumptions C16_rebuilt_instance_simulates_writer_any_config.
+Print Assumptions C16_written_after_opening_survive_rebuild_any_config.
+Print Assumptions C16_rebuilt_instance_step.
+Print Assumptions C16_related_instances_show_the_same_tree.
+Print Assumptions C16_rebuilt_instance_simulates_writer.
+Print Assumptions C16_written_after_opening_survive_rebuild.
